@@ -61,6 +61,8 @@ def oracle(case, out):
         o = out[i]
         if o == "skipped" or o.startswith("panic") or o == "bad-op":
             break
+        if o == "busy" or op.startswith("protocols "):
+            continue
         obs = parse_obs(o)
         if obs is None:
             break
